@@ -5,6 +5,7 @@ import random
 
 import corpus
 import c14_extract
+import c14_shapes
 import framework
 from framework import pmap
 
@@ -31,7 +32,9 @@ RULE = ('corpus programs (hand-written snippets covering every node type, random
         'pairs, (d) the six interleaved child orders on the real positions are compared with the Lean model; (e) an oracle '
         'that shares no code with pfst (ast.walk, ast.iter_child_nodes, CPython positions, own recursion) checks the '
         'property itself: node set, once each, parents first, siblings in start-position order, back/leave/both laws, '
-        'filters, step chains, next/prev inverse, path bijection.  distinct = distinct (tree, call parameters); '
+        'filters, step chains, next/prev inverse, path bijection; (f) the same oracle on one tiny program for EVERY small shape '
+        'of the six interleaved kinds (Call/ClassDef with <=3 keywords and <=3 positional/starred arguments in every gap, '
+        'Dict with ** at all positions, all argument-group combinations, MatchMapping with rest, Compare chains).  distinct = distinct (tree, call parameters); '
         'non-trivial = tree with more than 3 nodes')
 TRUSTED = [
     'modelled: fst_traverse.walk (three loops; all/self_/recurse/back), next, prev, first_child, last_child, next_child, '
@@ -588,6 +591,8 @@ def _programs(ctx, n, stdlib):
     rng = random.Random(ctx.rng.random())
     progs = list(corpus.SNIPPETS) + list(EXTRA_SNIPPETS)
     progs += corpus.programs(rng, n, stdlib=stdlib)
+    for lst in c14_shapes.sources().values():           # a sample of the exhaustive interleaved shapes (all go through the oracle in sweep)
+        progs += rng.sample(lst, min(len(lst), max(10, n // 8)))
     return progs
 
 
@@ -690,10 +695,34 @@ def sweep(ctx):
         if ch != [id(a) for a in fwd[1:]]:
             ctx.fail(f'C14|step_fwd|{root.a.__class__.__name__}|chain!=walk', 'step_fwd chain differs from walk', {'src': src, 'mode': mode})
     ctx.notes['sweep_special_roots'] = n
+    _shapes_oracle(ctx)
+    # report the smallest witness first
+    ctx.failures.sort(key=lambda f: len((f.witness or {}).get('src', '')) if isinstance(f.witness, dict) else 0)
+
+
+def _shapes_oracle(ctx):
+    """The six interleaved child orders, exhaustively for small sizes, through the ORACLE (one tiny program per shape):
+    children in walk order sorted by CPython start position, node set == ast.walk, next/prev/next_child/prev_child/
+    step chains == walk.  Every run, both tiers."""
+    fams = c14_shapes.sources()
+    items = [(src, 1, True, True) for lst in fams.values() for src in lst]
+    res = pmap(_oracle_only, items, chunksize=64)
+    nfail = 0
+    for (src, *_), fl in zip(items, res):
+        ctx.count('shape:' + src, True)
+        for sig, what, w in fl:
+            nfail += 1
+            ctx.fail(sig, what, w)
+            ctx.tally('oracle_failures', sig)
+    ctx.notes['interleaved_shapes_oracle'] = {k: len(v) for k, v in fams.items()}
+    return nfail
 
 
 def search(ctx):
-    """Something broke: run the oracle (and only the oracle) on a wider set of programs, hints first."""
+    """Something broke: run the oracle (and only the oracle) on a wider set of programs: the exhaustive small shapes of
+    the six interleaved kinds first (if the sweep did not get to them), then snippets and generated programs."""
+    if 'interleaved_shapes_oracle' not in ctx.notes and _shapes_oracle(ctx):
+        return
     progs = list(EXTRA_SNIPPETS) + list(corpus.SNIPPETS)
     rng = random.Random(ctx.rng.random())
     progs += corpus.programs(rng, 2500, stdlib=250)
